@@ -115,3 +115,18 @@ Proof.
   constructor; [split; [reflexivity|left; reflexivity]|].
   constructor; [split; [reflexivity|right; exists NNever; split; reflexivity]|constructor].
 Qed.
+
+(* ---- reset() of the source spares the configuration ----
+   Gen/GReset.v lists, from bblean/bitbirch.py on every run, the attributes BitBirch.reset assigns and the
+   attributes BitBirch.set_merge assigns (reset may contain nothing but constant assignments to attributes of
+   self, optionally under `if self.<attr> is not None:`; a call or anything else fails the translation) *)
+From Coq Require Import String.
+From BB Require Import Gen.GReset Proofs.GenTieReset.
+Theorem C17_source_reset_spares_config : forall a, In a reset_writes -> ~ In a config_attrs.
+Proof. exact reset_spares_config. Qed.
+Theorem C17_source_config_fields : forall a,
+  In a config_attrs <-> In a ["_merge_accept_fn"; "threshold"; "branching_factor"]%string.
+Proof. exact config_attrs_are_the_model_fields. Qed.
+Theorem C17_source_reset_clears_data :
+  In ("_root", "None")%string reset_clears /\ In ("_num_fitted_fps", "0")%string reset_clears.
+Proof. exact reset_clears_data. Qed.
